@@ -7,6 +7,7 @@ import (
 	"github.com/aukilabs/hagall-common/messages/hagallpb"
 	hwebsocket "github.com/aukilabs/hagall-common/websocket"
 	"github.com/aukilabs/hagall/internal/verifnd"
+	"strings"
 )
 
 const (
@@ -157,6 +158,29 @@ func c04Step(sh stepShape, lo, hi int) {
 	// optional sub-messages are present here; their absence is C08's subject (run-time panics), except
 	// where the protocol defines an answer for it (entity action)
 	r := buildRequest(kind, kind == kAction)
+	nearMiss := false
+	if kind == kJoin && verifnd.Bool() {
+		nearMiss = true
+		// a near miss of a live session's id (the requester's own or session B's): padded, re-cased, cut —
+		// ids match exactly or not at all
+		base := s.a0.sid
+		if verifnd.Bool() {
+			base = s.b0.sid
+		}
+		switch verifnd.Choice(5) {
+		case 0:
+			r.name = base + " "
+		case 1:
+			r.name = " " + base
+		case 2:
+			r.name = base + "\n"
+		case 3:
+			r.name = strings.ToUpper(base)
+		default:
+			r.name = base[:len(base)-1]
+		}
+		r.msg = &hagallpb.ParticipantJoinRequest{Type: hagallpb.MsgType_MSG_TYPE_PARTICIPANT_JOIN_REQUEST, Timestamp: r.ots, RequestId: r.rid, SessionId: r.name}
+	}
 	if s.hasAction {
 		assumeValidTS(s.actSec, s.actNanos)
 	}
@@ -168,6 +192,9 @@ func c04Step(sh stepShape, lo, hi int) {
 	s.w.drainAll()
 	o := s.run(s.a0, r)
 	kn := kindName(kind)
+	if nearMiss {
+		kn = "join_near_miss"
+	}
 	told := p1.drain()
 
 	// the handler only errors (-> disconnect) for the receipt kinds by design; never for a joined participant otherwise
